@@ -90,6 +90,7 @@ type Machine struct {
 	OnStore   func(st *State, site *ssa.Store, addr Ptr, v Val)
 	skipInit  func(fn *ssa.Function) bool
 	AltFilter func(st *State, v Val) Val // applied to the alternative a fork takes
+	ExtGlobals map[string]Val           // values of package-level variables outside the repository (io.EOF, ...)
 	Stuck     map[string]int
 }
 
@@ -333,6 +334,17 @@ func (m *Machine) get(st *State, fr *Frame, v ssa.Value) Val {
 			if !ok {
 				et := x.Type().Underlying().(*types.Pointer).Elem()
 				id = st.alloc(et, zeroVal(et))
+				st.Globals[x] = id
+			}
+			return Ptr{Obj: id}
+		}
+		if ev, ok := m.ExtGlobals[x.String()]; ok {
+			if st.Globals == nil {
+				st.Globals = map[*ssa.Global]int{}
+			}
+			id, ok := st.Globals[x]
+			if !ok {
+				id = st.alloc(x.Type().Underlying().(*types.Pointer).Elem(), cloneVal(ev))
 				st.Globals[x] = id
 			}
 			return Ptr{Obj: id}
